@@ -6,7 +6,7 @@ count of unused bytes and (when negotiated) the CRC of the whole value, and expe
 is checked for legality (rt.emit("illegal", why))."""
 from env import rt
 from canopen.sdo.base import CrcXmodem
-from canopen.sdo.exceptions import SdoAbortedError
+from canopen.sdo.exceptions import SdoAbortedError, SdoCommunicationError
 
 
 class BlockUploadServer:
@@ -212,6 +212,141 @@ class BlockDownloadServer:
         self.blksize = rt.choose_int("blksize", 1, 127)
         self.phase = 3 if self.finished else 1
         return bytes([0xA2, ack, self.blksize, 0, 0, 0, 0, 0])
+
+    def abort(self, abort_code=0x08000000):
+        rt.emit("abort", abort_code)
+
+
+class LossyBlockUploadServer:
+    """conformant block-upload server behind a network that may lose ANY of its segments (never the initiate response
+    or the end frame), as the block-upload stream sees it.  The server puts a whole sub-block on the wire (block size
+    as last told by the client, or up to the last segment) and then waits for the acknowledgement; an acknowledgement
+    that arrives while segments of the sub-block are still on the wire is processed after them (they reach the client
+    as stale frames, or are lost); the next sub-block starts with the segment after the acknowledged one, numbered
+    from 1.  The network is lazy: at every read it decides how many of the segments still on the wire are lost before
+    the one it delivers; with nothing on the wire and no acknowledgement pending the client's read times out."""
+    crc_cls = CrcXmodem
+    RESPONSE_TIMEOUT = 0.3
+
+    def __init__(self, index, subindex, value, server_crc):
+        self.index = index
+        self.subindex = subindex
+        self.value = value
+        self.server_crc = server_crc
+        self.use_crc = False
+        self.base = 0                     # byte position of segment 1 of the running sub-block
+        self.seq = 0                      # segments of the running sub-block that left the wire (delivered or lost)
+        self.exhausted = False            # the rest of the running sub-block was lost
+        self.blksize = 0
+        self.pending = False              # an acknowledgement arrived while the sub-block was still on the wire
+        self.pend_ack = 0
+        self.pend_blk = 0
+        self.phase = 0                    # 0 idle, 1 initiated, 2 sub-block on the wire / awaiting ack, 4 end frame due, 5 awaiting A1, 6 closed
+        self.last_len = 0
+        self.rx_cobid = 0x601
+
+    def illegal(self, why):
+        rt.emit("illegal", why)
+        raise SdoAbortedError(0x08000000)
+
+    def request_response(self, request):
+        if len(request) != 8 or self.phase != 0:
+            self.illegal("unexpected request")
+        cmd = request[0]
+        if (cmd & 0xFB) != 0xA0 or (request[1] | (request[2] << 8)) != self.index or request[3] != self.subindex:
+            self.illegal("initiate block upload: wrong command or multiplexer")
+        if request[4] < 1 or request[4] > 127 or request[6] != 0 or request[7] != 0:
+            self.illegal("initiate block upload: block size / reserved bytes")
+        self.blksize = request[4]
+        self.use_crc = self.server_crc and (cmd & 4) != 0
+        self.phase = 1
+        n = len(self.value)
+        return bytes([0xC2 | (4 if self.server_crc else 0), request[1], request[2], request[3],
+                      n & 0xFF, (n >> 8) & 0xFF, (n >> 16) & 0xFF, (n >> 24) & 0xFF])
+
+    def send_request(self, request):
+        rt.emit("client-frame", rt.snapshot(request))
+        if len(request) != 8:
+            self.illegal("frame not 8 bytes")
+        cmd = request[0]
+        if self.phase == 1:
+            if cmd != 0xA3 or request[1] != 0 or request[2] != 0 or request[3] != 0:
+                self.illegal("expected the start frame A3 00..")
+            self.phase = 2
+            self.base = 0
+            self.seq = 0
+            self.exhausted = False
+        elif self.phase == 2:
+            if cmd != 0xA2:
+                self.illegal("expected a sub-block acknowledgement A2")
+            if self.pending:
+                self.illegal("second acknowledgement for one sub-block")
+            a = request[1]
+            if a > self.blksize or (a > 0 and self.base + 7 * (a - 1) >= len(self.value)):
+                self.illegal("acknowledged more segments than the sub-block has")
+            if not self.exhausted and a > self.seq:
+                self.illegal("acknowledged a segment that was not sent yet")
+            if request[2] < 1 or request[2] > 127:
+                self.illegal("block size out of range")
+            self.pending = True
+            self.pend_ack = a
+            self.pend_blk = request[2]
+            if self.exhausted or self.seq >= self.blksize or self.base + 7 * self.seq >= len(self.value):
+                self.process_ack()        # nothing of the sub-block is on the wire any more
+        elif self.phase == 5:
+            if cmd != 0xA1:
+                self.illegal("expected the end confirmation A1")
+            self.phase = 6
+        else:
+            self.illegal("client frame in the wrong protocol step")
+
+    def next_segment(self):
+        """the next segment of the running sub-block that reaches the client, or None when the wire is empty"""
+        n = len(self.value)
+        if self.exhausted or self.seq >= self.blksize or self.base + 7 * self.seq >= n:
+            return None
+        k = rt.choose_int("lost-run", 0, 127)
+        if self.seq + k >= self.blksize or self.base + 7 * (self.seq + k) >= n:
+            self.exhausted = True
+            return None
+        self.seq = self.seq + k + 1
+        start = self.base + 7 * (self.seq - 1)
+        chunk = self.value[start:start + 7]
+        last = start + 7 >= n
+        seg = bytearray(8)
+        seg[0] = self.seq | (0x80 if last else 0)
+        seg[1:1 + len(chunk)] = chunk
+        return bytes(seg)
+
+    def process_ack(self):
+        n = len(self.value)
+        self.base = self.base + 7 * self.pend_ack
+        self.blksize = self.pend_blk
+        self.seq = 0
+        self.exhausted = False
+        self.pending = False
+        if self.base >= n:
+            # everything up to the last segment was acknowledged
+            self.last_len = n - (self.base - 7)
+            self.phase = 4
+
+    def read_response(self):
+        if self.phase == 2:
+            r = self.next_segment()
+            if r is None and self.pending:
+                self.process_ack()
+                if self.phase == 2:
+                    r = self.next_segment()
+            if r is not None:
+                return r
+            if self.phase == 2:
+                rt.emit("timeout")
+                raise SdoCommunicationError("No SDO response received")
+        if self.phase == 4:
+            crc = rt.crc_of(self.value) if self.use_crc else 0
+            self.phase = 5
+            return bytes([0xC1 | ((7 - self.last_len) << 2), crc & 0xFF, (crc >> 8) & 0xFF, 0, 0, 0, 0, 0])
+        self.illegal("the client reads although the server has nothing to send")
 
     def abort(self, abort_code=0x08000000):
         rt.emit("abort", abort_code)
